@@ -7,6 +7,7 @@ import (
 	"fmt"
 	"go/token"
 	"go/types"
+	"regexp"
 	"sort"
 	"strings"
 
@@ -26,6 +27,7 @@ type Obligation struct {
 	nDecls   int
 	Pos      token.Position
 	MustFail bool // cover / canary: expected sat
+	blk      *ssa.BasicBlock // block of the top-level function in which the obligation arose
 	Inputs   []string
 	// result
 	Result  string // proved | refuted | undecided | (covers) reachable | unreachable
@@ -53,10 +55,20 @@ type VC struct {
 	topFn       *ssa.Function
 	topContract *Contract
 	topVariant  Term
+	localSorts  map[string]string
+	arrDefs     map[Term]arrDef
+	defMemo     map[string]Term
+	lastDefined Term
+	ainfo       map[int]*assertInfo
+	defIdx      map[string][]int
+	funDeps     map[string][]string
+	nIndexed    int
+	nFunIndexed int
+	topFrame    *Frame
 }
 
 func newVC(eng *Engine, fn string) *VC {
-	vc := &VC{eng: eng, fnName: fn, declared: map[string]string{}, siteCnt: map[string]int{}, strConst: map[string]int{}, imprecise: map[string]bool{}, calledByContract: map[*ssa.Function]bool{}}
+	vc := &VC{eng: eng, fnName: fn, declared: map[string]string{}, siteCnt: map[string]int{}, strConst: map[string]int{}, imprecise: map[string]bool{}, calledByContract: map[*ssa.Function]bool{}, localSorts: map[string]string{}}
 	return vc
 }
 
@@ -104,7 +116,19 @@ func (vc *VC) define(hint, sort string, t Term) Term {
 	if len(t) < 24 || !strings.HasPrefix(t, "(") {
 		return t
 	}
+	// plain loads stay as they are (syntactic equality matters for merging)
+	if strings.HasPrefix(t, "(select |") && strings.Count(t, "(") == 1 {
+		return t
+	}
+	if vc.defMemo == nil {
+		vc.defMemo = map[string]Term{}
+	}
+	if n, ok := vc.defMemo[sort+":"+t]; ok {
+		return n
+	}
+	defer func() { vc.defMemo[sort+":"+t] = vc.lastDefined }()
 	n := vc.fresh(hint, sort)
+	vc.lastDefined = n
 	vc.asserts = append(vc.asserts, fmt.Sprintf("(assert (= %s %s))", n, t))
 	return n
 }
@@ -123,6 +147,31 @@ func (vc *VC) note(format string, a ...interface{}) {
 }
 
 func (vc *VC) oblige(kind, site string, guard, cond Term, props []string, aux bool, pos token.Position) *Obligation {
+	// a conjunction is split into one obligation per conjunct (smaller queries)
+	if kind != "canary" && strings.HasPrefix(cond, "(and ") {
+		parts := splitTop(cond[5 : len(cond)-1])
+		if len(parts) > 1 {
+			var last *Obligation
+			for i, p := range parts {
+				last = vc.oblige(kind, fmt.Sprintf("%s/%d", site, i+1), guard, p, props, aux, pos)
+			}
+			return last
+		}
+	}
+	// implication with a conjunctive consequent: split the consequent
+	if kind != "canary" && strings.HasPrefix(cond, "(=> ") {
+		parts := splitTop(cond[4 : len(cond)-1])
+		if len(parts) == 2 && strings.HasPrefix(parts[1], "(and ") {
+			cs := splitTop(parts[1][5 : len(parts[1])-1])
+			if len(cs) > 1 {
+				var last *Obligation
+				for i, c := range cs {
+					last = vc.oblige(kind, fmt.Sprintf("%s/%d", site, i+1), guard, implies(parts[0], c), props, aux, pos)
+				}
+				return last
+			}
+		}
+	}
 	if cond == "true" || guard == "false" {
 		// still counted: trivially discharged obligations are recorded so that a
 		// clause never silently generates nothing
@@ -135,13 +184,131 @@ func (vc *VC) oblige(kind, site string, guard, cond Term, props []string, aux bo
 	}
 	ob := &Obligation{Name: name, Kind: kind, Fn: vc.fnName, Site: site, Props: props, Aux: aux,
 		Guard: guard, Cond: cond, nAsserts: len(vc.asserts), nDecls: len(vc.decls), Pos: pos}
+	if vc.topFrame != nil {
+		ob.blk = vc.topFrame.curBlock
+	}
 	vc.obligs = append(vc.obligs, ob)
 	// assert-then-assume
 	vc.assumeIf(guard, cond)
 	return ob
 }
 
-func (vc *VC) query(ob *Obligation) string {
+var symRe = regexp.MustCompile(`\|[^|]*\|`)
+var patRe = regexp.MustCompile(`:pattern \(\(select (\|[^|]*\|)`)
+var defRe = regexp.MustCompile(`^\(assert \(= (\|[^|]*\|) `)
+var defFunRe = regexp.MustCompile(`^\(define-fun (\|[^|]*\|) `)
+
+type assertInfo struct {
+	syms  []string
+	qkeys []string // quantified axiom keyed by these array symbols
+	def   string   // definitional equality for this symbol
+}
+
+func (vc *VC) classify(i int) *assertInfo {
+	if vc.ainfo == nil {
+		vc.ainfo = map[int]*assertInfo{}
+	}
+	if ai, ok := vc.ainfo[i]; ok {
+		return ai
+	}
+	a := vc.asserts[i]
+	ai := &assertInfo{syms: symRe.FindAllString(a, -1)}
+	if strings.Contains(a, "(forall ") {
+		for _, m := range patRe.FindAllStringSubmatch(a, -1) {
+			ai.qkeys = append(ai.qkeys, m[1])
+		}
+	} else if m := defRe.FindStringSubmatch(a); m != nil {
+		ai.def = m[1]
+	}
+	vc.ainfo[i] = ai
+	return ai
+}
+
+// slicedAsserts: backward data-flow closure from the goal.  Any subset of the
+// assumptions is sound; quantified array axioms whose array cannot influence
+// the goal are the expensive ones and are dropped.
+func (vc *VC) slicedAsserts(ob *Obligation) map[int]bool {
+	needed := map[string]bool{}
+	var work []string
+	add := func(ss []string) {
+		for _, s := range ss {
+			if !needed[s] {
+				needed[s] = true
+				work = append(work, s)
+			}
+		}
+	}
+	add(symRe.FindAllString(ob.Guard+" "+ob.Cond, -1))
+	// index: symbol -> asserts that define it / are keyed by it; define-funs
+	if vc.defIdx == nil {
+		vc.defIdx = map[string][]int{}
+		vc.funDeps = map[string][]string{}
+		for _, d := range vc.decls {
+			if m := defFunRe.FindStringSubmatch(d); m != nil {
+				vc.funDeps[m[1]] = symRe.FindAllString(d[len(m[0]):], -1)
+			}
+		}
+		vc.nIndexed = 0
+	}
+	for ; vc.nIndexed < len(vc.asserts); vc.nIndexed++ {
+		ai := vc.classify(vc.nIndexed)
+		if ai.def != "" {
+			vc.defIdx[ai.def] = append(vc.defIdx[ai.def], vc.nIndexed)
+		}
+		for _, k := range ai.qkeys {
+			vc.defIdx[k] = append(vc.defIdx[k], vc.nIndexed)
+		}
+	}
+	// define-funs may have been added since the index was built
+	for _, d := range vc.decls[vc.nFunIndexed:] {
+		if m := defFunRe.FindStringSubmatch(d); m != nil {
+			vc.funDeps[m[1]] = symRe.FindAllString(d[len(m[0]):], -1)
+		}
+	}
+	vc.nFunIndexed = len(vc.decls)
+	keep := map[int]bool{}
+	for len(work) > 0 {
+		s := work[len(work)-1]
+		work = work[:len(work)-1]
+		if deps, ok := vc.funDeps[s]; ok {
+			add(deps)
+		}
+		for _, i := range vc.defIdx[s] {
+			if i < ob.nAsserts && !keep[i] {
+				keep[i] = true
+				add(vc.classify(i).syms)
+			}
+		}
+	}
+	// every other non-quantified assumption that talks about a needed symbol is
+	// kept for its constraining effect (without extending the closure)
+	for i := 0; i < ob.nAsserts; i++ {
+		if keep[i] {
+			continue
+		}
+		ai := vc.classify(i)
+		if len(ai.qkeys) > 0 {
+			continue
+		}
+		if ai.def != "" {
+			continue
+		}
+		for _, s := range ai.syms {
+			if needed[s] {
+				keep[i] = true
+				break
+			}
+		}
+		if len(ai.syms) == 0 {
+			keep[i] = true
+		}
+	}
+	return keep
+}
+
+func (vc *VC) query(ob *Obligation) string { return vc.queryWith(ob, nil) }
+
+func (vc *VC) queryWith(ob *Obligation, keep map[int]bool) string {
 	var b strings.Builder
 	b.WriteString(vc.eng.prelude)
 	// all declarations (later ones are harmless) but only the assumptions
@@ -150,7 +317,10 @@ func (vc *VC) query(ob *Obligation) string {
 		b.WriteString(d)
 		b.WriteByte('\n')
 	}
-	for _, a := range vc.asserts[:ob.nAsserts] {
+	for i, a := range vc.asserts[:ob.nAsserts] {
+		if keep != nil && !keep[i] {
+			continue
+		}
 		b.WriteString(a)
 		b.WriteByte('\n')
 	}
@@ -206,6 +376,9 @@ func (vc *VC) famSort(fam string) string {
 	if s, ok := ghostSorts[fam]; ok {
 		return s
 	}
+	if s, ok := vc.localSorts[fam]; ok {
+		return s
+	}
 	if s, ok := vc.eng.famSorts[fam]; ok {
 		return s
 	}
@@ -216,17 +389,139 @@ func (vc *VC) get(s *State, fam string) Term {
 	if t, ok := s.m[fam]; ok {
 		return t
 	}
+	if srt, ok := vc.localSorts[fam]; ok {
+		// cells of local variables start out zero
+		if srt == "Bool" {
+			return "false"
+		}
+		return "0"
+	}
 	return vc.declare(fam+"@0", vc.famSort(fam))
 }
 
 func (vc *VC) set(s *State, fam string, t Term) {
 	srt := vc.famSort(fam)
 	if strings.HasPrefix(t, "(") {
-		n := vc.fresh(fam, srt)
-		vc.asserts = append(vc.asserts, fmt.Sprintf("(assert (= %s %s))", n, t))
-		t = n
+		if strings.HasPrefix(srt, "(Array") {
+			// arrays are introduced as macros (define-fun): no array equalities for
+			// the solver's extensionality reasoning
+			vc.nfresh++
+			n := q(fmt.Sprintf("%s!%d", fam, vc.nfresh))
+			vc.declared[n] = srt
+			vc.decls = append(vc.decls, fmt.Sprintf("(define-fun %s () %s %s)", n, srt, t))
+			vc.recordArrDef(n, t)
+			t = n
+		} else {
+			n := vc.fresh(fam, srt)
+			vc.asserts = append(vc.asserts, fmt.Sprintf("(assert (= %s %s))", n, t))
+			t = n
+		}
 	}
 	s.m[fam] = t
+}
+
+type arrDef struct {
+	store          bool
+	prev, idx, val Term
+	cond, a, b     Term
+}
+
+func (vc *VC) recordArrDef(name, t Term) {
+	if vc.arrDefs == nil {
+		vc.arrDefs = map[Term]arrDef{}
+	}
+	if strings.HasPrefix(t, "(store ") {
+		ps := splitTop(t[7 : len(t)-1])
+		if len(ps) == 3 {
+			vc.arrDefs[name] = arrDef{store: true, prev: ps[0], idx: ps[1], val: ps[2]}
+		}
+	} else if strings.HasPrefix(t, "(ite ") {
+		ps := splitTop(t[5 : len(t)-1])
+		if len(ps) == 3 {
+			vc.arrDefs[name] = arrDef{cond: ps[0], a: ps[1], b: ps[2]}
+		}
+	}
+}
+
+// sel builds (select a i), resolving reads over syntactically known store /
+// ite chains (keeps terms in a normal form that E-matching can use).
+func (vc *VC) sel(a, i Term) Term {
+	return vc.selDepth(a, i, 0)
+}
+
+func (vc *VC) selDepth(a, i Term, depth int) Term {
+	cur := a
+	for n := 0; n < 64; n++ {
+		// inline nested store terms that were never named
+		var d arrDef
+		var ok bool
+		if strings.HasPrefix(cur, "(store ") {
+			ps := splitTop(cur[7 : len(cur)-1])
+			if len(ps) == 3 {
+				d, ok = arrDef{store: true, prev: ps[0], idx: ps[1], val: ps[2]}, true
+			}
+		} else if strings.HasPrefix(cur, "(ite ") {
+			ps := splitTop(cur[5 : len(cur)-1])
+			if len(ps) == 3 {
+				d, ok = arrDef{cond: ps[0], a: ps[1], b: ps[2]}, true
+			}
+		} else {
+			d, ok = vc.arrDefs[cur]
+		}
+		if !ok {
+			break
+		}
+		if d.store {
+			if d.idx == i {
+				return d.val
+			}
+			if distinctTerms(d.idx, i) {
+				cur = d.prev
+				continue
+			}
+			break
+		}
+		if depth < 12 {
+			x := vc.selDepth(d.a, i, depth+1)
+			y := vc.selDepth(d.b, i, depth+1)
+			if x == y {
+				return x
+			}
+			if len(x)+len(y) < 6000 {
+				return ite(d.cond, x, y)
+			}
+		}
+		break
+	}
+	return sx("select", cur, i)
+}
+
+// distinctTerms: syntactically provable disequality of two integer terms.
+func distinctTerms(x, y Term) bool {
+	bx, cx := splitOffset(x)
+	by, cy := splitOffset(y)
+	return bx == by && cx != cy
+}
+
+// splitOffset decomposes base + constant (nested sums are flattened).
+func splitOffset(t Term) (Term, int64) {
+	if n, ok := litInt(t); ok {
+		return "", n
+	}
+	if strings.HasPrefix(t, "(+ ") {
+		ps := splitTop(t[3 : len(t)-1])
+		if len(ps) == 2 {
+			if n, ok := litInt(ps[1]); ok {
+				b, c := splitOffset(ps[0])
+				return b, c + n
+			}
+			if n, ok := litInt(ps[0]); ok {
+				b, c := splitOffset(ps[1])
+				return b, c + n
+			}
+		}
+	}
+	return t, 0
 }
 
 func (vc *VC) regFam(fam, leafSort string) {
@@ -289,10 +584,11 @@ func (vc *VC) havocFam(s *State, fam string) {
 // Values
 
 type Place struct {
-	Root types.Type // object / element type selecting the families
-	Addr Term
-	Path string // dotted path inside Root
-	Cur  types.Type
+	Root  types.Type // object / element type selecting the families
+	Addr  Term
+	Path  string // dotted path inside Root
+	Cur   types.Type
+	Local string // non-escaping local variable: key prefix of its cells in the state
 }
 
 type Val struct {
@@ -308,4 +604,110 @@ func (v Val) t() Term {
 		panic(fmt.Sprintf("value of type %v has %d components", v.T, len(v.C)))
 	}
 	return v.C[0]
+}
+
+// splitTop splits a sequence of s-expressions / atoms at the top level.
+func splitTop(s string) []string {
+	var out []string
+	depth := 0
+	start := -1
+	inBar := false
+	for i := 0; i < len(s); i++ {
+		c := s[i]
+		if c == '|' {
+			inBar = !inBar
+			if start < 0 {
+				start = i
+			}
+			continue
+		}
+		if inBar {
+			continue
+		}
+		switch c {
+		case '(':
+			if depth == 0 && start < 0 {
+				start = i
+			}
+			depth++
+		case ')':
+			depth--
+			if depth == 0 {
+				out = append(out, s[start:i+1])
+				start = -1
+			}
+		case ' ', '\t', '\n':
+			if depth == 0 && start >= 0 {
+				out = append(out, s[start:i])
+				start = -1
+			}
+		default:
+			if start < 0 {
+				start = i
+			}
+		}
+	}
+	if start >= 0 {
+		out = append(out, s[start:])
+	}
+	return out
+}
+
+// pathSplits enumerates the acyclic paths of the top-level function that lead
+// to the obligation's block (back to the function entry or to the innermost
+// loop head) and returns, per path, the literals that pin it down: the edge
+// variables on the path are true, their sibling edges false.  On a single
+// path every state merge collapses, which is what E-matching needs.
+func (vc *VC) pathSplits(ob *Obligation, limit int) [][]Term {
+	fr := vc.topFrame
+	if fr == nil || ob.blk == nil {
+		return nil
+	}
+	var out [][]Term
+	var cur []Term
+	var dfs func(b *ssa.BasicBlock) bool
+	dfs = func(b *ssa.BasicBlock) bool {
+		if b == fr.fn.Blocks[0] || fr.loopHead[b] != nil {
+			if len(out) >= limit {
+				return false
+			}
+			out = append(out, append([]Term{}, cur...))
+			return true
+		}
+		n := 0
+		for _, p := range b.Preds {
+			if backEdge(p, b) {
+				continue
+			}
+			e, ok := fr.edgeCond[[2]int{p.Index, b.Index}]
+			if !ok {
+				continue
+			}
+			n++
+			saved := len(cur)
+			cur = append(cur, e)
+			for _, s := range p.Succs {
+				if s != b {
+					if se, ok := fr.edgeCond[[2]int{p.Index, s.Index}]; ok {
+						cur = append(cur, not(se))
+					}
+				}
+			}
+			if !dfs(p) {
+				return false
+			}
+			cur = cur[:saved]
+		}
+		if n == 0 {
+			out = append(out, append([]Term{}, cur...))
+		}
+		return true
+	}
+	if !dfs(ob.blk) {
+		return nil
+	}
+	if len(out) <= 1 {
+		return nil
+	}
+	return out
 }
